@@ -30,6 +30,10 @@ CONSTANTS
     Msgs,           \* commit messages (keys)
     Subject(_),     \* message -> its first line
     MaxCommits,     \* bound on the number of commits in one behaviour
+    WithId,         \* TRUE: the initial state has a local identity configured
+    CfgKeys,        \* set of <<section, key>> that `config` may set ({} = config not explored)
+    CfgValues,      \* values for them
+    IgnoreVariants, \* content token -> lines of a .goitignore with that content (<<>> = no such files)
     InitEvents,     \* events executed before exploration starts (they are part of every emitted path)
     FreshContent,   \* "" = a new file may get any content; otherwise new files get exactly this content (smaller instances)
     ArgLists,       \* set of path-argument sequences used by add / rm / restore
@@ -125,8 +129,14 @@ Line(s) == [st |-> s, obs |-> ObsOf(s)]
 (* environment: edits of the working tree *)
 
 CanWrite(s, p) == p \notin DirsOfWt(s.wt) /\ ParentDirs(p) \cap DOMAIN s.wt = {}
-EnvWrite(s, p, c) == R([s EXCEPT !.wt = Put(s.wt, p, c)], "ok")
-EnvRemove(s, p) == R([s EXCEPT !.wt = Drop(s.wt, {p})], "ok")
+IgnFile == ".goitignore"
+EnvWrite(s, p, c) ==
+    IF p = IgnFile /\ c \in DOMAIN IgnoreVariants
+    THEN R([s EXCEPT !.wt = Put(s.wt, p, c), !.ign = [present |-> TRUE, lines |-> IgnoreVariants[c]]], "ok")
+    ELSE R([s EXCEPT !.wt = Put(s.wt, p, c)], "ok")
+EnvRemove(s, p) ==
+    IF p = IgnFile THEN R([s EXCEPT !.wt = Drop(s.wt, {p}), !.ign = [present |-> FALSE, lines |-> <<>>]], "ok")
+    ELSE R([s EXCEPT !.wt = Drop(s.wt, {p})], "ok")
 EnvRmdir(s, d) == R([s EXCEPT !.wt = Drop(s.wt, {p \in DOMAIN s.wt : d \in ParentDirs(p)})], "ok")
 
 ----------------------------------------------------------------------------
@@ -285,7 +295,18 @@ UpdateRefEvents ==
             : b \in BranchNames, i \in DOMAIN st.objs \cup {"deadbeef"}}
     ELSE {}
 
+ConfigEvents ==
+    IF "config" \in Cmds
+    THEN {Base("config", "cmd") @@ [global |-> g, key |-> x[1] \o "." \o x[2], value |-> v, sec |-> x[1], k |-> x[2]]
+            : g \in BOOLEAN, x \in CfgKeys, v \in CfgValues}
+    ELSE {}
+IgnoreEvents ==
+    IF "ignore" \in Cmds
+    THEN {Base("write", "env") @@ [p |-> IgnFile, c |-> c] : c \in {x \in DOMAIN IgnoreVariants : IgnFile \notin DOMAIN st.wt \/ st.wt[IgnFile] # x}}
+    ELSE {}
+
 Events == EnvEvents \cup PathEvents \cup CommitEvents \cup ResetEvents \cup NameEvents \cup UpdateRefEvents
+            \cup ConfigEvents \cup IgnoreEvents
 
 ----------------------------------------------------------------------------
 (* the state after a fixed prefix of events (successful commits are counted for the commit ids) *)
@@ -294,7 +315,7 @@ RunPrefix(s, n, evs) ==
     IF Len(evs) = 0 THEN [st |-> s, nk |-> n]
     ELSE LET r == Step(s, Head(evs), n) IN
          RunPrefix(r.st, IF Head(evs).ev = "commit" /\ r.res = "ok" THEN n + 1 ELSE n, Tail(evs))
-InitState == RunPrefix(Seal(WithIdentity(Fresh)), 0, InitEvents)
+InitState == RunPrefix(Seal(IF WithId THEN WithIdentity(Fresh) ELSE Fresh), 0, InitEvents)
 
 Init ==
     /\ st = InitState.st
